@@ -203,6 +203,11 @@ func (c *checkSchema) checkLinksOfNode(node schema.Node, ss map[string]schema.Ty
 	}
 
 	c.collectAllowedJsonTypes(node, ss)
+	if _, ok := node.(*schema.MixedNode); ok {
+		// The root of an "or" rule-set member has no JSON type of its own (it is
+		// guessed from the annotated example, which may match another member).
+		return
+	}
 	if _, ok := c.allowedJsonTypes[node.Type()]; !ok {
 		panic(errors.ErrIncorrectUserType)
 	}
